@@ -34,16 +34,18 @@ CONSTANTS
   MaxDepth,    \* nesting depth of anonymous struct types (0 = no nested struct)
   MaxGroup,    \* members per import group / type group
   MaxItems,    \* routes per service
-  Pool,        \* "tiny" | "cover" | "rich": size of the pools of types / fields / routes
+  Pool,        \* "tiny" | "cover" | "rich": size of the pools of types / fields / routes;
+               \* "routes": every route shape of the rich pool inside one plain service, the rest tiny
   Ordered,     \* BOOLEAN: kitchen-sink documents (see the pools section)
   MaxSteps,    \* builder steps per document
-  Modes,       \* subset of {"default","single","uniform","random","mutate"}
+  Modes,       \* subset of {"default","single","uniform","random","mutate","area","areapair"}
   Kinds,       \* layout kinds used by the modes single / uniform / random
   Salts,       \* salts of the pseudo-random layouts (mode "random")
   Density,     \* mode "random": a boundary is perturbed with probability 1/Density
   MinSteps,    \* the builder may finish only after this many steps (simulation: large docs)
   Seed,        \* seed of the pseudo-random layouts
-  Avoid,       \* BOOLEAN: layouts stay out of the area of the open known findings (KnownArea)
+  Avoid,       \* BOOLEAN: the modes single / uniform / random stay out of the area of the open
+               \* known findings (KnownArea); the modes area / areapair enumerate exactly that area
   Showcase     \* BOOLEAN: mode "single" only produces the showcase case of the known findings
 
 VARIABLES
@@ -237,9 +239,11 @@ LegalLayout(ts, l) ==
   /\ \A b \in DOMAIN l : Legal(ts, b, l[b])
 
 \* Area of known finding KF_RouteCommentLineBreak (see ApiDocTrace): a comment that ends or
-\* occupies a line, between the tokens of a route line after the method.  The generation
-\* configs stay out of it (Avoid = TRUE) except the showcase config, so that thousands of
-\* cases are not spent on one open finding.
+\* occupies a line, between the tokens of a route line after the method.  The finding only
+\* concerns format(format(src)) = format(src); the meaning of the route must survive there
+\* like everywhere else.  The big families stay out of the area (Avoid = TRUE); the area is
+\* enumerated by families of its own (modes "area" / "areapair", and uniform / random layouts
+\* with Avoid = FALSE over service statements), see LayArea below.
 RouteRegions == {"path", "body", "route"}
 KnownArea(ts, b, k) == b >= 2 /\ b <= Len(ts) /\ ts[b].r \in RouteRegions /\ k \in CommentKinds \ SameLineKinds
 Allowed(ts, b, k) == Legal(ts, b, k) /\ (Avoid => ~KnownArea(ts, b, k))
@@ -302,7 +306,7 @@ PlainSeq == <<B("string"), Slice(Ptr(B("Foo"))), IfaceT, Map(B("string"), Slice(
               Ptr(Slice(IfaceT))>>
 DT0 == {B("string"), B("Foo"), AnyT, IfaceT}
 PlainDT ==
-  CASE Pool = "tiny"  -> {B("string"), Slice(Ptr(B("Foo")))}
+  CASE Pool \in {"tiny", "routes"} -> {B("string"), Slice(Ptr(B("Foo")))}
     [] Pool = "cover" -> SeqSet(PlainSeq)
     [] Pool = "rich"  -> SeqSet(PlainSeq) \cup DT0 \cup {Slice(e) : e \in DT0} \cup {Map(B("string"), e) : e \in DT0}
                            \cup {Ptr(e) : e \in DT0} \cup {Arr("2", Slice(AnyT)), Slice(Map(B("int"), Ptr(B("Foo"))))}
@@ -335,7 +339,7 @@ FieldPool(i) ==
 \* fields whose type contains a (still empty) anonymous struct; in ordered mode they follow the plain ones
 NestPool(i) ==
   IF Ordered THEN (IF lvl = 0 /\ i = Len(OuterFields(var)) + 1 THEN {NestSeq[var]} ELSE {})
-  ELSE IF Pool = "tiny" THEN {NestSeq[1]}
+  ELSE IF Pool \in {"tiny", "routes"} THEN {NestSeq[1]}
   ELSE {[NestSeq[j] EXCEPT !.names = <<"N" \o ToString(i)>>, !.tag = tg] : j \in DOMAIN NestSeq, tg \in Tags}
 
 TName(i) == "T" \o ToString(i)
@@ -347,16 +351,17 @@ KV1 == <<"title", "\"t\"">>
 KV2 == <<"desc", "\"d %s d\"">>
 KV3 == <<"raw", "`raw`">>
 KV4 == <<"multi", "`line1 \n  line2 \n`">>
-InfoKVs == CASE Pool = "tiny" -> {<<KV1>>} [] Pool = "cover" -> {<<KV1, KV2, KV3, KV4>>}
+InfoKVs == CASE Pool \in {"tiny", "routes"} -> {<<KV1>>} [] Pool = "cover" -> {<<KV1, KV2, KV3, KV4>>}
              [] Pool = "rich" -> {<<KV1>>, <<KV1, KV2>>, <<KV3, KV1>>, <<KV4>>}
 ImportSeq == <<"\"a.api\"", "\"b.api\"", "\"c.api\"">>
-ImportVals == IF Pool = "tiny" THEN {"\"a.api\""} ELSE {"\"a.api\"", "\"b.api\""}
+ImportVals == IF Pool \in {"tiny", "routes"} THEN {"\"a.api\""} ELSE {"\"a.api\"", "\"b.api\""}
 
 SrvFull == <<<<"group", <<"user">>>>, <<"prefix", <<"/", "api", "/", "v1">>>>, <<"timeout", <<"3s">>>>,
              <<"jwt", <<"Auth">>>>, <<"middleware", <<"M1", ",", "M2">>>>, <<"tags", <<"a", "-", "b">>>>,
              <<"maxBytes", <<"1024">>>>, <<"summary", <<SrvStr>>>>, <<"mixed", <<"a", "/", "b", "-", "c">>>>>>
 ServerKVs ==
   CASE Pool = "tiny"  -> {<<>>, <<<<"group", <<"user">>>>>>}
+    [] Pool = "routes" -> {<<>>}
     [] Pool = "cover" -> {<<>>, SrvFull}
     [] Pool = "rich"  -> {<<>>, SrvFull, <<<<"group", <<"user">>>>>>, SubSeq(SrvFull, 2, 3), SubSeq(SrvFull, 4, 6)}
 SvcNames == IF Pool = "rich" THEN {<<"foo">>, <<"foo", "-", "api">>} ELSE {<<"foo", "-", "api">>}
@@ -376,13 +381,13 @@ ItemSeq ==
     Item(Grp1, "h5", "put", <<"/", "v1", "/">>, Body(FALSE, TRUE, "Req"), Empty, FALSE),
     Item(Lit, "h6", "get", <<"/", "x">>, Empty, Body(FALSE, FALSE, "Resp"), TRUE),
     Item(None, "h7", "get", <<"/", "last">>, None, None, FALSE)>>
-Bodies == IF Pool = "rich"
+Bodies == IF Pool \in {"rich", "routes"}
           THEN {None, Empty, Body(FALSE, FALSE, "Req"), Body(FALSE, TRUE, "Req"), Body(TRUE, FALSE, "Req"), Body(TRUE, TRUE, "Req")}
           ELSE {None, Body(FALSE, FALSE, "Req"), Body(TRUE, TRUE, "Req")}
-Paths == IF Pool = "rich"
+Paths == IF Pool \in {"rich", "routes"}
          THEN {<<"/">>, <<"/", "ping">>, <<"/", "a", "/", ":", "id">>, <<"/", "a", "-", "b", "/", "1">>, <<"/", "v1", "/">>}
          ELSE {<<"/">>, <<"/", "a", "/", ":", "id">>}
-Docs == IF Pool = "tiny" THEN {None, Lit} ELSE {None, Lit, Grp1, Grp2}
+Docs == CASE Pool = "tiny" -> {None, Lit} [] Pool = "routes" -> {None} [] OTHER -> {None, Lit, Grp1, Grp2}
 ItemsV(v) == CASE v = 1 -> SubSeq(ItemSeq, 1, 2) [] v = 2 -> SubSeq(ItemSeq, 3, 5) [] v = 3 -> SubSeq(ItemSeq, 6, 7)
                [] v = 4 -> <<>>
 SrvV(v) == CASE v = 1 -> SubSeq(SrvFull, 1, 5) [] v = 3 -> SubSeq(SrvFull, 6, 9) [] OTHER -> <<>>
@@ -390,7 +395,7 @@ ItemPool(i) ==
   IF Ordered THEN Pick(ItemsV(var), i)
   ELSE IF Pool = "tiny" THEN {[ItemSeq[j] EXCEPT !.handler = "h" \o ToString(i)] : j \in 1..2}
   ELSE {Item(d, "h" \o ToString(i), IF rq = None THEN "get" ELSE "post", p, rq, rs, sm) :
-          d \in Docs, p \in Paths, rq \in Bodies, rs \in Bodies, sm \in (IF Pool = "rich" THEN BOOLEAN ELSE {FALSE})}
+          d \in Docs, p \in Paths, rq \in Bodies, rs \in Bodies, sm \in (IF Pool \in {"rich", "routes"} THEN BOOLEAN ELSE {FALSE})}
 
 ----------------------------------------------------------------------------
 (* The document builder. Documents grow strictly left to right, so every document has
@@ -560,7 +565,23 @@ LayMutate ==
        /\ kd = "cut" => i < Len(toks)
        /\ Ready(DefaultLay(toks), [kind |-> kd, at |-> i, n |-> w])
 
-Lay == phase = "lay" /\ (LayDefault \/ LaySingle \/ LayUniform \/ LayRandom \/ LayMutate)
+\* the area of the known finding, enumerated: one line-ending / own-line comment at every
+\* boundary between the tokens of a route (after the method), of every kind
+AreaAt(ts, b, k) == Legal(ts, b, k) /\ KnownArea(ts, b, k)
+LayArea ==
+  /\ "area" \in Modes
+  /\ \E b \in 2..Len(toks), k \in Kinds :
+       /\ AreaAt(toks, b, k)
+       /\ Ready([DefaultLay(toks) EXCEPT ![b] = k], NoMut)
+
+\* two such comments (same route or two routes of the service)
+LayAreaPair ==
+  /\ "areapair" \in Modes
+  /\ \E b1 \in 2..Len(toks), b2 \in 2..Len(toks), k1 \in Kinds, k2 \in Kinds :
+       /\ b1 < b2 /\ AreaAt(toks, b1, k1) /\ AreaAt(toks, b2, k2)
+       /\ Ready([DefaultLay(toks) EXCEPT ![b1] = k1, ![b2] = k2], NoMut)
+
+Lay == phase = "lay" /\ (LayDefault \/ LaySingle \/ LayUniform \/ LayRandom \/ LayMutate \/ LayArea \/ LayAreaPair)
 
 \* the token texts and canonical separators after a mutation
 Pairs(ts) == [i \in 1..Len(ts) |-> <<ts[i].d, ts[i].t>>]
@@ -596,6 +617,15 @@ CanonicalLegal ==
       /\ toks[b].ln = "same" => toks[b].d \in {"", " "}
       /\ toks[b].ln = "next" => toks[b].d \notin {"", " "}
       /\ toks[b].ln = "path" => toks[b].d \in {"", " "}
+\* the configurations with Avoid = TRUE leave the area of the known finding to the modes area /
+\* areapair (one or two separators, all of them inside the area); InArea is what the deviation
+\* action of ApiDocTrace is guarded by
+InArea(ts, l) == \E b \in 2..Len(ts) : KnownArea(ts, b, l[b])
+Perturbed(l) == {b \in DOMAIN l : l[b] # 0}
+AreaSane ==
+  (phase = "ready" /\ Valid /\ Avoid /\ InArea(toks, lay)) =>
+     /\ Cardinality(Perturbed(lay)) \in {1, 2}
+     /\ \A b \in Perturbed(lay) : KnownArea(toks, b, lay[b])
 \* the meaning of a document is a flat sequence of the five statement kinds of an API description
 MeaningShape ==
   phase = "lay" =>
@@ -607,7 +637,8 @@ MeaningShape ==
 
    valid case  : parsing succeeds and yields the meaning of the built document; formatting
                  succeeds; the formatted text parses to an equivalent meaning; formatting the
-                 formatted text succeeds and returns it unchanged.
+                 formatted text succeeds and returns it unchanged; (whatever the second run
+                 returned) its result parses to an equivalent meaning as well.
    invalid case: (mutated token sequence) parser and formatter end with "ok" or "err",
                  never with a crash.                                                     *)
 NoCrash(st) == st \in {"ok", "err", "empty"}   \* "empty": the text to parse/format was empty (call skipped)
@@ -627,4 +658,8 @@ ReparseOK(valid, m0, st, m) ==
 ReformatOK(valid, out1, st, out) ==
   /\ NoCrash(st)
   /\ valid => st = "ok" /\ out = out1
+
+\* parse(format(format(src))): implied by the two clauses above when they hold; stated on its own
+\* because it is what remains demanded where an open known finding excuses out # out1
+Reparse2OK(valid, m0, st, m) == ReparseOK(valid, m0, st, m)
 =============================================================================
